@@ -180,6 +180,7 @@ func c01Msgs() []*descriptorpb.DescriptorProto {
 		{Name: proto.String("rep"), Number: proto.Int32(6), Type: str, Label: descriptorpb.FieldDescriptorProto_LABEL_REPEATED.Enum()},
 		f("camel_case", 7),
 		{Name: proto.String("rnest"), Number: proto.Int32(8), Type: descriptorpb.FieldDescriptorProto_TYPE_MESSAGE.Enum(), TypeName: proto.String(".verif.rt.Nest"), Label: descriptorpb.FieldDescriptorProto_LABEL_REPEATED.Enum()},
+		{Name: proto.String("data"), Number: proto.Int32(9), Type: descriptorpb.FieldDescriptorProto_TYPE_BYTES.Enum(), Label: opt},
 	}}
 	return []*descriptorpb.DescriptorProto{deep, nest, msg}
 }
@@ -215,6 +216,8 @@ func c01Fields(m proto.Message) string {
 				walk(name+".", v.Message())
 			case fd.Kind() == protoreflect.Int32Kind:
 				out = append(out, name+"=i"+strconv.FormatInt(v.Int(), 10))
+			case fd.Kind() == protoreflect.BytesKind:
+				out = append(out, name+"=b"+hx(v.Bytes()))
 			default:
 				out = append(out, name+"="+hx([]byte(v.String())))
 			}
@@ -397,9 +400,9 @@ func c01RunRG(o *out, input string) {
 // ---- generators ----
 
 var c01Lits = []string{"a", "aa", "v1", "x.y-z_0", "é", "b", "中"}
-var c01Fill = []string{"x", "aa", "v1", "é", "a.b", "~!$&'()*+,;=@", "b", "a", "0", "x2"}
+var c01Fill = []string{"x", "aa", "v1", "é", "a.b", "~!$&'()*+,;=@", "b", "a", "0", "x2", "aGk=", "YQ==", "-_8", "YWJj"}
 var c01Verbs = []string{"GET", "POST", "PUT", "DELETE", "PATCH", "LIST", "*"}
-var c01Vars = []string{"{s1}", "{s2}", "{s3}", "{nest.a}", "{nest.deep.x}", "{camelCase}", "{camel_case}", "{num}",
+var c01Vars = []string{"{s1}", "{s2}", "{s3}", "{nest.a}", "{nest.deep.x}", "{camelCase}", "{camel_case}", "{num}", "{data}",
 	"{s1=aa/*}", "{s2=*}", "{nest.b=b/*/aa}", "{s3=v1/aa}"}
 var c01TailVars = []string{"{s2=aa/**}", "{s3=**}", "{nest.a=b/**}"}
 
